@@ -140,9 +140,41 @@ def record(run, family, n, label=None, race=False, extra=(), timeout=3600, seed_
     return out
 
 
+CANARY = {}   # family -> function(event dict) -> corrupted event dict or None if this event cannot be corrupted
+
+
+def canary(run, family, module, events_path, env=None):
+    """Binding check: a copy of accepted events with one recorded field corrupted must be rejected by the trace
+    specification; otherwise the specification does not constrain the recorded field and the run is void."""
+    fn = CANARY.get(family)
+    if fn is None:
+        return
+    out = os.path.join(run.dir, "canary-%s.ndjson" % family)
+    n = 0
+    with open(events_path) as f, open(out, "w") as g:
+        for line in f:
+            e = fn(json.loads(line))
+            if e is not None:
+                g.write(json.dumps(e, separators=(",", ":")) + "\n")
+                n += 1
+                if n >= 8:
+                    break
+    if n == 0:
+        raise MachineryError("canary: no corruptible event for " + family)
+    verdicts, _ = run.validate(module, out, label="canary", env=env, count=False)
+    bad = {v["l"] for v in verdicts if vlib.classify(v) == "mismatch"}
+    skipped = {v["l"] for v in verdicts if vlib.classify(v) != "mismatch"}
+    missing = [i for i in range(1, n + 1) if i not in bad and i not in skipped]
+    if missing or not bad:
+        raise MachineryError("canary: corrupted %s events were accepted by %s (lines %s)" % (family, module, missing))
+    run.stages.append({"stage": "canary", "family": family, "corrupted_events_rejected": len(bad)})
+
+
 def family_random(run, family, module, n, label="random", shards=64, timeout=3600, env=None, extra=()):
     ev = record(run, family, n, label=label, extra=extra)
     judge_events(run, family, module, ev, label, shards=shards, timeout=timeout, env=env)
+    if not run.mismatches and not run.known:
+        canary(run, family, module, ev, env=env)
 
 
 def family_enumerated(run, family, gen_module, trace_module, label="enumerated", gen_cfg=None, shards=64, env=None,
